@@ -14,7 +14,7 @@ Runtime contracts on the real code, through the real entry point `tel2puml.otel_
 
 Domain: multi-workflow trace sets built from small call trees (1-4 spans, chain / bushy) whose span names include
 plain names, names with inner and *surrounding* spaces, unicode and empty-looking strings; x mapping config
-{default, custom (all seven keys renamed)} x {sync, async} sequencing.  The absent janus package is replaced by the
+{default, custom (all seven keys renamed), chained (a custom name equal to another field's standard name)} x {sync, async}.  The absent janus package is replaced by the
 stand-in in /verif/stubs (assumed dependency contract).
 """
 from __future__ import annotations
@@ -61,10 +61,12 @@ def config(tmp: str, async_flag: bool) -> Any:
     })
 
 
-def mapping(custom: bool) -> Any:
+def mapping(custom: Any) -> Any:
     from tel2puml.tel2puml_types import PVEventMappingConfig
     if not custom:
         return None
+    if custom == "chained":   # a custom name that is the standard name of another (also renamed) field
+        return PVEventMappingConfig(jobName="eventType", eventType="eventName", jobId="eventId", eventId="spanRef")
     return PVEventMappingConfig(jobId="JID", eventId="eid", timestamp="when", previousEventIds="prev", applicationName="application",
                                 jobName="workflow", eventType="type")
 
@@ -164,7 +166,7 @@ def domain(tier: str, rng: random.Random) -> Any:
             wf = rng.choice(["wf one", "wf2", "Users Service"])
             pool = NAMES if k % 2 else [x for x in NAMES if x == x.strip()]
             layout.append([f"t{ti}", wf, sh, [rng.choice(pool) for _ in sh]])
-        for custom in (False, True):
+        for custom in (False, True) + (("chained",) if k % 2 == 0 else ()):
             yield {"layout": layout, "custom": custom, "async": bool(k % 3 == 0)}
 
 
